@@ -19,6 +19,10 @@ GOENV = dict(os.environ, GOFLAGS="-mod=mod", GOPROXY="off", GOSUMDB="off", GOTOO
 CLOCK_GLOBS = ["internal/kvstore/table/table.go", "internal/kvstore/compaction.go", "internal/dmap/*.go"]
 
 
+# background workers that the harness can switch off (gate inserted at the top of the function)
+GATES = {"internal/dmap/eviction.go": ["-skip", "evictKeys"]}
+
+
 def run(cmd, cwd=None, env=None, check=True, timeout=None, quiet=False):
     p = subprocess.run(cmd, cwd=cwd, env=env, stdout=subprocess.PIPE, stderr=subprocess.STDOUT,
                        text=True, timeout=timeout)
@@ -64,11 +68,11 @@ def build_harness(workdir):
             if src.endswith("_test.go") or src in replace:
                 continue
             txt = open(src).read()
-            if "time.Now()" not in txt and "time.Until(" not in txt and "time.Since(" not in txt:
-                continue
             rel = os.path.relpath(src, REPO)
+            if "time.Now()" not in txt and "time.Until(" not in txt and "time.Since(" not in txt and rel not in GATES:
+                continue
             dst = os.path.join(rw, rel.replace("/", "__"))
-            p = run([os.path.join(BUILD, "clockrewrite"), src, dst])
+            p = run([os.path.join(BUILD, "clockrewrite"), src, dst] + GATES.get(rel, []))
             replace[src] = dst
             rewritten[rel] = p.stdout.strip().split(": ")[-1]
     # registry of every Parse* function, regenerated from the source
